@@ -270,6 +270,37 @@ fn main() {
         std::process::exit(2);
     }
     let prog = a[1].as_str();
+    if prog == "seq" || prog == "seqset" {
+        // single-threaded differential sequence under Miri (C02: UB that still returns the right
+        // answer); args: mode cap universe steps seed
+        let mode: u8 = a[2].parse().unwrap();
+        let cfg = fv::seq::SeqCfg {
+            mode,
+            cap: a[3].parse().unwrap(),
+            universe: a[4].parse().unwrap(),
+            steps: a[5].parse().unwrap(),
+            facade: 4,
+            audit_every: 8,
+            growth: false,
+            cmp_bound: false,
+            profile: if mode >= 2 { 1 } else { 0 },
+            batch: 1,
+            allow_replace_map: true,
+        };
+        let seed: u64 = a.get(6).and_then(|s| s.parse().ok()).unwrap_or(1);
+        fv::hook::install();
+        let mut rng = fv::util::Rng::new(seed);
+        let mut st = fv::seq::SeqStats::default();
+        let r = if prog == "seq" { fv::seq::run_seq(&cfg, &mut rng, &mut st) } else { fv::seq::run_seq_set(&cfg, &mut rng, &mut st) };
+        if let Err(f) = r {
+            panic!("sequence diverged from the reference: {} {}", f.sig, f.detail);
+        }
+        println!(
+            "LITMUS-OK {{\"counters\":{{\"seq_steps\":{},\"seq_audits\":{},\"seq_treeify\":{},\"seq_resizes\":{}}},\"nontrivial\":{},\"sig\":\"{:x}\",\"seed_tag\":\"{}\",\"sample\":{{\"first_ops\":{:?}}}}}",
+            st.steps, st.audits, st.treeify, st.resizes, st.resizes + st.treeify > 0, seed ^ (mode as u64) << 56, seed, st.trace.iter().take(8).collect::<Vec<_>>()
+        );
+        return;
+    }
     let mode: u8 = a[2].parse().unwrap();
     let cap: usize = a[3].parse().unwrap();
     let pre: u64 = a[4].parse().unwrap();
